@@ -1,7 +1,7 @@
-\* enumerate every abstract behaviour case (shape x operand effects x context)
+\* enumerate every abstract behaviour case (shape x operand effects x context x occurrence variation)
 SPECIFICATION Spec
 CONSTANTS
   Shapes <- MCShapes
-  MaxCases = 400
-INVARIANTS EmitCase
+  MaxCases = 800
+INVARIANTS EmitCase OccOK
 CHECK_DEADLOCK FALSE
